@@ -21,7 +21,7 @@ def sig_of(v):
     return "C15:%s:%s:%s" % (v["kind"], v["ep"], v["culprit"] or "-")
 
 
-def run(ctx, cases_override=None):
+def run(ctx, cases_override=None, confirm_pass=False):
     thorough = ctx.thorough
     leads = []
     mc_runs = []
@@ -51,7 +51,7 @@ def run(ctx, cases_override=None):
     cpath = write_ndjson(ctx.path("c15_cases.ndjson"), cases)
     # ---- EXEC
     tpath = ctx.path("c15_trace.ndjson")
-    ctx.vh("exec-c15", cpath, tpath, env={"C15_PAR": "48"}, timeout=3000)
+    ctx.vh("exec-c15", cpath, tpath, env={"C15_PAR": "64"}, timeout=3000)
     trace = read_ndjson(tpath)
     bad = [r for r in trace if r["b"]["cfgerr"] or not r["b"]["ran"]]
     if bad:
@@ -86,8 +86,32 @@ def run(ctx, cases_override=None):
         viols.append({"sig": sig_of(v), "what": "%s: phase %s, endpoint %s, modes %s, required=%s; observed %s" % (
             kind, v["phase"], v["ep"], v["modes"], v["req"], json.dumps(v["obs"])[:300]), "case": by_id.get(cid), "detail": v})
     drift = ["case %s: %s" % (cid, json.dumps(d)[:400]) for cid, d in prints(j, "DRIFT")]
-    if leads and cases_override is None and not any(v["detail"]["culprit"] == "json503un" for v in viols) and not drift:
-        raise MachineryError("model-level counterexample (%s) not reproduced on the real code: spec bug" % leads)
+    # ---- confirmation: a violation that is not a known finding, and any drift, must reproduce when the case is
+    # executed again (on a busy machine a request can die on a local socket or overrun the client deadline,
+    # which looks like an unavailable upstream)
+    ckey = lambda c: (tuple(c["modes"]), c["ep"], c["required"])
+    dcases = {cid: by_id[cid] for cid, _ in prints(j, "DRIFT") if cid in by_id}
+    obs = {(ckey(v["case"]), v["sig"]) for v in viols} | {(ckey(c), "drift") for c in dcases.values()}
+    if confirm_pass:
+        return obs
+    transient = 0
+    _, new = vlib.partition_violations(ctx.prop, viols)
+    redo = {ckey(v["case"]): v["case"] for v in new}
+    if len(dcases) <= 300:
+        redo.update({ckey(c): c for c in dcases.values()})
+    if redo:
+        again = confirm(ctx, list(redo.values())[:400])
+        keep = []
+        for v in viols:
+            if v in new and (ckey(v["case"]), v["sig"]) not in again:
+                transient += 1
+                continue
+            keep.append(v)
+        viols = keep
+        if len(dcases) <= 300:
+            kept = [cid for cid, c in dcases.items() if (ckey(c), "drift") in again]
+            transient += len(dcases) - len(kept)
+            drift = [d for d in drift if int(d.split()[1].rstrip(":")) in kept]
     nontrivial = [c for c in cases if any(m != "healthy" for m in c["modes"])]
     contacted2 = sum(1 for r in trace if sum(1 for n in r["a"]["counts"] if n > 0) >= 2 or r["a"]["at"] >= 2)
     cov = {
@@ -102,17 +126,21 @@ def run(ctx, cases_override=None):
         "exhaustive": bool(thorough and cases_override is None),
         "cases": len(cases), "failed_over_cases": contacted2,
         "model_states": sum(r["distinct"] or 0 for r in mc_runs), "model_level_leads": leads,
-        "drift_records": len(drift), "impl_variant": variant,
+        "drift_records": len(drift), "impl_variant": variant, "transient_unreproduced": transient,
     }
     return vlib.conclude(ctx, viols, "fault_enumeration", cov, [
         "TLC model-checks the impl-shaped failover loops and error classification against the documented contract for all 10^4 listed cases",
-        "fake listeners: refused = closed port (its attempts cannot be counted), timeout = handler outlives the client deadline "
-        "(timeout 100ms + 1s), truncated = hijacked connection closed mid-body",
+        "fake listeners: refused = bound, never listening port (its attempts cannot be counted), timeout = handler outlives the client deadline "
+        "(timeout 900ms + 1s), truncated = hijacked connection closed mid-body",
         "truncated body and 500 with JSON errorType=execution are ambiguous in the statement: failing over and returning as is are both accepted",
         "404 on config/flags/metadata marks the API unsupported and moves on (named deviation UnsupportedFallsThrough): accepted",
         "mode json503un (503 with errorType=unavailable, what Prometheus answers while its TSDB is not ready) is a server (5xx) error "
         "in the sense of the statement although it is not in the quantifier's list",
     ], drift=drift)
+
+
+def confirm(ctx, cases):
+    return run(ctx, cases_override=[{k: c[k] for k in ("modes", "ep", "required")} for c in cases], confirm_pass=True)
 
 
 def replay(ctx, path):
